@@ -4,6 +4,8 @@ stepped, written and recorded.
 """
 from __future__ import annotations
 
+import ast
+
 from typing import Dict, List, Optional
 
 from . import terms as T
@@ -61,6 +63,30 @@ class CompiledView:
                          and len(self.ev.closures[v[1]].node.args.args) == arity and n not in ("_run_node", "_run_generation", "_run_S")]
                 if arity == 1 and self.outer.ret[0] == "closure":
                     cands = [(n, v) for n, v in cands if v == self.outer.ret] or cands
+                if len(cands) != 1 and arity == 3:
+                    # the node runner produced by a factory `make(kind)` -> `run(graph_state, timings_node)` instead of being bound
+                    # with functools.partial: read as the three-argument function it stands for
+                    facs = []
+                    for n, v in self.outer.env.items():
+                        c0 = self.ev.closures.get(v[1]) if v[0] == "closure" else None
+                        if c0 is None or c0.kind != "def" or len(c0.node.args.args) != 1:
+                            continue
+                        inner = [st for st in c0.node.body if isinstance(st, ast.FunctionDef) and len(st.args.args) == 2]
+                        rets = [st for st in c0.node.body if isinstance(st, ast.Return) and isinstance(st.value, ast.Name)]
+                        if len(inner) == 1 and len(rets) == 1 and rets[0].value.id == inner[0].name:
+                            facs.append((n, v))
+                    if len(facs) == 1:
+                        lam = ast.parse("lambda kind, graph_state, timings_node: __factory(kind)(graph_state, timings_node)", mode="eval").body
+                        for nd in ast.walk(lam):
+                            if hasattr(nd, "lineno"):
+                                ast.copy_location(nd, self.ev.closures[facs[0][1][1]].node)
+                        u = self.ev.uid()
+                        from .symeval import Closure, Frame
+                        fr0 = self.outer.frame
+                        self.ev.closures[u] = Closure(u, "lambda", lam, Frame(fr0.func, fr0.module, fr0.cls, {"__factory": facs[0][1]}, parent=fr0),
+                                                      qualname=self.ev.closures[facs[0][1][1]].qualname)
+                        inner_name = [st for st in self.ev.closures[facs[0][1][1]].node.body if isinstance(st, ast.FunctionDef)][0].name
+                        cands = [(f"{facs[0][0]}.{inner_name}", ("closure", u))]
                 if len(cands) != 1:
                     raise AnalysisError(f"closure {name} not found in make_run_partition_excl_supervisor")
                 self.outer.env[name] = cands[0][1]
